@@ -165,9 +165,9 @@ CLAIMED = {
    design="§4 C11", technique="Coq proof over hand model; differential correspondence with repetition + style oracle",
    note=TB + 'Axioms: none. Model reflects fixes F4, F5.'),
  "C17": dict(
-   text="10 theorems in coq/Properties/C17.v: rounding = nearest multiple with ties up, in [0,1440]; at_time by target date (today, +1440, -1440, missing time; impossible exactly at rounded 24:00 for yesterday); stop's fallback to yesterday only when automatic and no record today; never a crash (first-day witness refuted). Tied to the code by a clock-face sweep of start/stop/switch at every minute x roundings x date selections x record layouts and `total --now` at every minute.",
+   text="11 theorems in coq/Properties/C17.v: rounding = nearest multiple with ties up, in [0,1440]; at_time by target date (today, +1440, -1440, missing time; impossible exactly at rounded 24:00 for yesterday); stop's fallback to yesterday only when automatic and no record today; never a crash (first-day witness refuted); stop with an explicit date looks at that date's record only (C17_stop_explicit_date, fix F13). Tied to the code by a clock-face sweep of start/stop/switch at every minute x roundings x date selections x record layouts and `total --now` at every minute.",
    design="§4 C17", technique="Coq proof (lia / lifted clock-face sweep) over hand model; exhaustive clock sweep correspondence",
-   note=TB + 'Axioms: none. Model reflects fix F6.'),
+   note=TB + 'Axioms: none. Model reflects fixes F6, F13.'),
  "C20": dict(
    text="Theorems in coq/Properties/C20.v over the executable model of `klog json` (coq/Model/JsonView.v: Context.ReadInputs over one or several files, "
         "ToJson with its record / entry / tag / error views in the member order of view.go, the safemath panics of service.Total and service.Diff, "
